@@ -54,6 +54,7 @@ def parseOp (w : String) : Option Op :=
   | ["S", _] => some .dopen
   | ["V", h, f] => (docT h).map fun t => .dval t (f == "1")
   | ["E"] => some .dclose
+  | ["F", f] => some (.dfail (f == "1"))
   | _ => none
 
 def sortNat (l : List Nat) : List Nat := (l.toArray.qsort (· < ·)).toList
